@@ -43,11 +43,23 @@ func (rpSuite) Gen(r *rand.Rand, i int) Case {
 	size := sizes[r.Intn(len(sizes))]
 	ws := []int64{1, 7, 1_000_000, 1_000_000_000}
 	w := ws[r.Intn(len(ws))]
-	extreme := n > 0 && r.Intn(15) == 0
+	dense := n > 0 && r.Intn(10) == 0
+	if dense {
+		n, size = 1+r.Intn(3), 11+r.Intn(15) // many more live samples than 10 per bucket
+	}
+	wall := n > 0 && !dense && r.Intn(10) == 0
+	extreme := n > 0 && !dense && !wall && r.Intn(15) == 0
 	if extreme {
 		w = 1 // 1 ns buckets: the absolute bucket index can come within NumBuckets of MaxInt64
 	}
+	if wall {
+		w = 10_000_000_000 // 10 s buckets: the whole case runs inside bucket 0 of the wall clock
+	}
 	c := Case{Header: fmt.Sprintf("rp n=%d w=%d size=%d", n, w, size)}
+	if wall {
+		c.Header += " wall=1"
+		c.Tags = append(c.Tags, "published-summary")
+	}
 	g := &timeGen{n: max(n, 1), w: w}
 	if extreme {
 		g.cur = math.MaxInt64 - r.Int63n(int64(3*n+2))
@@ -56,13 +68,25 @@ func (rpSuite) Gen(r *rand.Rand, i int) Case {
 	}
 	perBucket := map[int64]int{}
 	nops := 1 + r.Intn(40)
+	if dense {
+		nops = 25*n + r.Intn(40*n)
+		c.Tags = append(c.Tags, "dense")
+	}
 	for j := 0; j < nops; j++ {
 		d, tag := g.next(r)
-		if r.Intn(3) == 0 { // cluster in the current bucket to overflow its capacity
+		if r.Intn(3) == 0 || (dense && r.Intn(20) != 0) { // cluster in the current bucket to overflow its capacity
 			d, tag = g.cur, "same-time"
 		}
 		c.Tags = append(c.Tags, tag)
-		switch x := r.Intn(100); {
+		x := r.Intn(100)
+		if dense && x >= 92 {
+			x = r.Intn(92) // no resets while the sample is being piled up
+		}
+		if wall && r.Intn(5) == 0 {
+			c.Ops = append(c.Ops, "pub")
+			continue
+		}
+		switch {
 		case x < 62:
 			c.Ops = append(c.Ops, fmt.Sprintf("add %d %d", genDuration(r), d))
 			if d >= 0 {
@@ -88,7 +112,12 @@ func (rpSuite) Nontrivial(tags map[string]int) bool {
 
 func (rpSuite) Run(h map[string]string, ops []string) []string {
 	n, w, size := int(atoi(h["n"])), atoi(h["w"]), int(atoi(h["size"]))
+	origin := origin
+	if h["wall"] == "1" {
+		origin = time.Now() // the timeline starts at the wall clock: Snapshot() / Var() (which read time.Now()) fall into bucket 0
+	}
 	rp := faststats.NewRollingPercentile(time.Duration(w), n, size, origin)
+	held := rp.Var() // obtained ONCE, evaluated later (the expvar.Publish usage pattern)
 	out := make([]string, len(ops))
 	for i, op := range ops {
 		out[i] = func() (res string) {
@@ -111,6 +140,22 @@ func (rpSuite) Run(h map[string]string, ops []string) []string {
 				return fmtInts(l)
 			case "reset":
 				rp.Reset(origin.Add(time.Duration(atoi(f[1]))))
+				return "ok"
+			case "pub":
+				// the published summary, evaluated now through the Var obtained at the start, must label the sample
+				// that Snapshot() returns now
+				var got struct{ Snap map[string]string }
+				if err := json.Unmarshal([]byte(held.String()), &got); err != nil {
+					return "bad-json"
+				}
+				sn := rp.Snapshot()
+				want := map[string]string{"min": sn.Min().String(), "p25": sn.Percentile(25).String(), "p50": sn.Percentile(50).String(),
+					"p90": sn.Percentile(90).String(), "p99": sn.Percentile(99).String(), "max": sn.Max().String(), "mean": sn.Mean().String()}
+				for k, v := range want {
+					if got.Snap[k] != v {
+						return fmt.Sprintf("mismatch:%s=%s,want=%s", k, got.Snap[k], v)
+					}
+				}
 				return "ok"
 			}
 			return "bad-op"
